@@ -365,6 +365,7 @@ func (fv *FuncVC) onAcquire(mu *Val, id string, write bool) {
 	if fv.g.interference {
 		fv.havocGuarded(mu, id)
 	}
+	fv.reacquire(id)
 }
 
 // binary.Read(r, order, &x): reads sizeof(x) bytes big-endian from the ghost stream of r.
